@@ -11,3 +11,6 @@ import TvNetTable.Props.C17
 #print axioms TV.C17.C17_witness_F1
 #print axioms TV.C17.C17_fixed_instance
 #print axioms TV.C17.C17_partial
+#print axioms TV.C17.index_invariant
+#print axioms TV.C17.index_invariant_kernel
+#print axioms TV.C17.conflict_iff_socket
